@@ -404,12 +404,25 @@ type kv struct {
 	v []string
 }
 
+// zeroValues is a field that is present with zero values: a nil slice or a non-nil empty one
+// (`h[k] = h[k][:0]` in an upstream filter); the two are encoded `~` and `~~`.
+func (g *gen) zeroValues() []string {
+	if g.p(50) {
+		return nil
+	}
+	return []string{}
+}
+
 func encKVs(m []kv) string {
 	if len(m) == 0 {
 		return "~"
 	}
 	parts := make([]string, len(m))
 	for i, e := range m {
+		if e.v != nil && len(e.v) == 0 {
+			parts[i] = encBytes(e.k) + "=~~"
+			continue
+		}
 		parts[i] = encBytes(e.k) + "=" + encList(e.v)
 	}
 	return strings.Join(parts, ";")
@@ -526,7 +539,7 @@ func (g *gen) request(c *cors.Config) request {
 	switch {
 	case g.p(10):
 	case g.p(3):
-		rq.hdrs = append(rq.hdrs, kv{"Origin", nil})
+		rq.hdrs = append(rq.hdrs, kv{"Origin", g.zeroValues()})
 	case g.p(5):
 		rq.hdrs = append(rq.hdrs, kv{"Origin", []string{g.originValue(c), g.originValue(c)}})
 	default:
@@ -536,7 +549,7 @@ func (g *gen) request(c *cors.Config) request {
 	switch {
 	case g.p(25):
 	case g.p(3):
-		rq.hdrs = append(rq.hdrs, kv{"Access-Control-Request-Method", nil})
+		rq.hdrs = append(rq.hdrs, kv{"Access-Control-Request-Method", g.zeroValues()})
 	case g.p(4):
 		rq.hdrs = append(rq.hdrs, kv{"Access-Control-Request-Method", []string{""}})
 	default:
@@ -561,7 +574,7 @@ func (g *gen) request(c *cors.Config) request {
 	switch {
 	case g.p(35):
 	case g.p(3):
-		rq.hdrs = append(rq.hdrs, kv{"Access-Control-Request-Headers", nil})
+		rq.hdrs = append(rq.hdrs, kv{"Access-Control-Request-Headers", g.zeroValues()})
 	case g.p(8):
 		rq.hdrs = append(rq.hdrs, kv{"Access-Control-Request-Headers", []string{pick(g, []string{"x-foo,,x-bar", "X-Foo", "x-foo , x-bar", ",", "\x00", "é", strings.Repeat("a", 300), strings.Repeat(",", 20), "authorization"})}})
 	default:
@@ -573,7 +586,7 @@ func (g *gen) request(c *cors.Config) request {
 	case g.p(75):
 		rq.hdrs = append(rq.hdrs, kv{"Access-Control-Request-Private-Network", []string{"true"}})
 	case g.p(20):
-		rq.hdrs = append(rq.hdrs, kv{"Access-Control-Request-Private-Network", nil})
+		rq.hdrs = append(rq.hdrs, kv{"Access-Control-Request-Private-Network", g.zeroValues()})
 	default:
 		rq.hdrs = append(rq.hdrs, kv{"Access-Control-Request-Private-Network", []string{pick(g, []string{"false", "TRUE", "", "true ", "1"}), "true"}})
 	}
